@@ -190,6 +190,10 @@ def coq_property(pid, fresh=False, timeout=1800):
     return res
 
 
+# lower bounds (about one third of what the quick tier sees on the unchanged tree) for the number of distinct non-trivial evaluations
+MIN_NONTRIVIAL = {'C01': 35, 'C02': 35, 'C03': 60, 'C04': 140, 'C05': 90, 'C06': 45, 'C07': 18, 'C08': 170, 'C09': 120, 'C10': 75, 'C11': 120, 'C12': 8000,
+                  'C13': 140, 'C14': 190, 'C15': 15, 'C16': 30, 'C17': 10, 'C18': 70000, 'C19': 60000, 'C20': 7}
+
 ALLOWED_AXIOMS = {
     'ClassicalDedekindReals.sig_not_dec', 'ClassicalDedekindReals.sig_forall_dec',
     'FunctionalExtensionality.functional_extensionality_dep', 'Classical_Prop.classic',
